@@ -227,57 +227,100 @@ def rule_tables(facts, rep):
     rep.check(ok, "tables", hb["path"], "bright-foreground-test", f"true exactly for a bright 4-bit foreground: {why[:2]}", loc(hb))
 
 
-def rule_font(facts, rep):
-    b = facts.body("anstyle_roff", R + "set_effects_and_text")
-    rep.fn(b["path"])
-    st = hir.stmts_of(b["hir"])
-    eff = st[0] if st and st[0].get("k") == "let" else {}
-    ok = hir.is_call(hir.simp(eff.get("init", {})), "anstyle::style::Style::get_effects") and hir.place_str(hir.simp(eff["init"])["args"][0]) == "styled.style"
-    rep.check(ok, "font", b["path"], "effects-of-the-segment", "", loc(b))
-    # the font decision, case by case (BOLD set? bright foreground? ITALIC set?): on the one structural path feasible for the
-    # case exactly one of roff::bold / italic / roman wraps the segment text, and it is bold if BOLD or bright-fg, else italic
-    # if ITALIC, else roman — three statement branches or one `let inline = if ..` are the same thing
+_SEG_CACHE = {}
+
+
+def segment_runs(facts):
+    """What to_roff's loop body does to the document for one segment, by abstract evaluation of the body on segment values: the
+    text a symbol, the foreground each of the 16 colours / a 256-colour / an RGB value / unset, the background set or unset, the
+    effects one of seven sets.  Document calls are recorded (Roff::control, Roff::text, and add_color_to_roff as a whole: what it
+    asks of the document per colour kind is decided in rule colours); everything else of the crate and of anstyle is evaluated,
+    so where the statements live (helpers, destructured segment, parameters) does not matter.
+    -> [(fg value, bright?, bg value, effect names, log)]"""
+    key = id(facts)
+    if key in _SEG_CACHE:
+        return _SEG_CACHE[key]
+    import abseval
     import itertools
-    paths = hir.enumerate_paths(b["hir"])
-    R_ = hir.Resolver(b["hir"])
-    results = {}
-    for bold, bright, italic in itertools.product((False, True), repeat=3):
-        def val(e, depth=0, bold=bold, bright=bright, italic=italic):
-            e = hir.simp(e)
-            if hir.is_call(e, "anstyle::effect::Effects::contains"):
-                recv = R_.res(hir.peel(e["args"][0]))
-                which = hir.last_seg(hir.def_path(e["args"][1]) or "")
-                if hir.is_call(recv, "anstyle::style::Style::get_effects") and hir.place_str(recv["args"][0]) == "styled.style" and which in ("BOLD", "ITALIC"):
-                    return ("bool", bold if which == "BOLD" else italic)
-                return None
-            if hir.is_call(e, R + "has_bright_fg") and hir.place_str(e["args"][0]) == "styled.style":
-                return ("bool", bright)
-            if e.get("k") == "bin" and e.get("op") in ("BitOr", "BitAnd", "Or", "And") and e.get("ty") == "bool" and depth < 4:
-                l, r = val(e["l"], depth + 1), val(e["r"], depth + 1)
-                if l and r and l[0] == r[0] == "bool":
-                    return ("bool", (l[1] or r[1]) if e["op"] in ("BitOr", "Or") else (l[1] and r[1]))
-            if e.get("k") == "local" and depth < 4:
-                init = R_.res(e)
-                if init is not e:
-                    return val(init, depth + 1)
-            return None
-        feas = [p for p in paths if hir.path_feasible(p, val)]
-        fonts = []
-        for p in feas:
-            for t in p.trace:
-                if t[0] == "eval":
-                    for c in hir.walk(t[1]):
-                        if c.get("k") == "call" and hir.callee(c) in ("roff::bold", "roff::italic", "roff::roman") and hir.place_str(c["args"][0]) == "styled.text":
-                            fonts.append(hir.callee(c).split("::")[-1])
-        texts = [c for p in feas for t in p.trace if t[0] == "eval" for c in hir.walk(t[1]) if hir.is_call(c, "roff::Roff::text")]
-        results[(bold, bright, italic)] = (len(feas), fonts, len(texts))
-    want_rows = [("BOLD|bright-fg", "bold", lambda k: k[0] or k[1]), ("ITALIC", "italic", lambda k: not (k[0] or k[1]) and k[2]),
-                 ("else", "roman", lambda k: not (k[0] or k[1] or k[2]))]
+    t = facts.body("anstyle_roff", R + "to_roff")
+    loops = [l for l in (hir.for_loop(n) for n in hir.walk(t["hir"]) if n.get("k") == "match" and n.get("src") == "ForLoopDesugar") if l]
+    if len(loops) != 1:
+        raise Unrecognised(f"to_roff has {len(loops)} loops")
+    pat, it, body = loops[0]
+    docs = [x["pat"]["name"] for x in hir.stmts_of(t["hir"]) if x.get("k") == "let" and x["pat"].get("k") == "pbind" and
+            hir.is_call(hir.simp(x.get("init", {})), "roff::Roff::new")]
+    if len(docs) != 1:
+        raise Unrecognised("to_roff does not build exactly one document")
+    CO = "anstyle::color::Color::"
+    bit = {n_: v for n_, v, _ in ac.effect_consts(facts)}
+    fgs = [(("none",), False)] + [(("some", ("ctor", CO + "Ansi", ("enum", ac.ANSI + "::" + n))), n.startswith("Bright")) for n in sgr.ANSI16] + \
+          [(("some", ("ctor", CO + "Ansi256", ("sym", "X"))), False), (("some", ("ctor", CO + "Rgb", ("sym", "RGB"))), False)]
+    bgs = [("none",), ("some", ("sym", "BG"))]
+    effs = [(), ("BOLD",), ("ITALIC",), ("BOLD", "ITALIC"), ("UNDERLINE", "DIMMED"), ("ITALIC", "STRIKETHROUGH"), tuple(sgr.EFFECT_ORDER)]
+
+    def elems(v):
+        if isinstance(v, tuple) and v and v[0] == "array":
+            return list(v[1:])
+        if isinstance(v, tuple):
+            for x in v[1:]:
+                r_ = elems(x)
+                if r_ is not None:
+                    return r_
+        return None
+    out = []
+    for (fg, bright), bg, eff in itertools.product(fgs, bgs, effs):
+        log = []
+        atoms = {"roff::Roff::control": lambda a_, log=log: (log.append(("control", a_[1], elems(a_[2]))), a_[0])[1],
+                 "roff::Roff::text": lambda a_, log=log: (log.append(("text", elems(a_[1]))), a_[0])[1],
+                 R + "add_color_to_roff": lambda a_, log=log: (log.append(("colour", a_[1], a_[2])), ("unit",))[1],
+                 "*": lambda cal, a_, e_: ("app", cal) + tuple(a_)}
+        ev = abseval.Evaluator(facts, "anstyle_roff", atoms, inline_crates=("anstyle_roff", "anstyle"))
+        bits = 0
+        for n in eff:
+            bits |= bit[n]
+        style = ("rec", {"fg": fg, "bg": bg, "underline": ("none",), "effects": ("ctor", "anstyle::effect::Effects", ("int", bits))})
+        env = abseval.Env()
+        env[docs[0]] = ("sym", "doc")
+        if not ev.bind(pat, ("rec", {"text": ("sym", "TEXT"), "style": style}), env):
+            raise Unrecognised("the loop pattern does not bind a segment")
+        try:
+            ev.ev(body, env)
+        except (abseval.Return, abseval.Break, abseval.Continue):
+            log.append(("early-exit",))
+        out.append((fg, bright, bg, eff, log))
+    _SEG_CACHE[key] = out
+    return out
+
+
+def rule_font(facts, rep):
+    b = facts.body("anstyle_roff", R + "to_roff")
+    rep.fn(b["path"])
+    try:
+        h = facts.body("anstyle_roff", R + "set_effects_and_text")
+        rep.fn(h["path"])
+    except AnchorMissing:
+        h = b
+    runs = segment_runs(facts)
+    # the font decision, case by case (BOLD set? bright foreground? ITALIC set?): the segment's text is written exactly once, wrapped
+    # in exactly one of roff::bold / italic / roman, and it is bold if BOLD or bright-fg, else italic if ITALIC, else roman
+    T = ("sym", "TEXT")
+
+    def font_of(log):
+        texts = [ev_ for ev_ in log if ev_[0] == "text"]
+        if len(texts) != 1 or texts[0][1] is None or len(texts[0][1]) != 1:
+            return f"{len(texts)} text writes"
+        v = texts[0][1][0]
+        if v[0] == "app" and v[1] in ("roff::bold", "roff::italic", "roff::roman") and list(v[2:]) == [T]:
+            return v[1].split("::")[-1]
+        return f"text written as {str(v)[:60]}"
+    rep.check(len(runs) >= 200, "font", h["path"], "effects-of-the-segment", f"{len(runs)} segment values evaluated", loc(h))
+    want_rows = [("BOLD|bright-fg", "bold", lambda bold, bright, italic: bold or bright), ("ITALIC", "italic", lambda bold, bright, italic: not (bold or bright) and italic),
+                 ("else", "roman", lambda bold, bright, italic: not (bold or bright or italic))]
     for i, (label, font, pred) in enumerate(want_rows):
-        bad = {k: v for k, v in results.items() if pred(k) and v != (1, [font], 1)}
-        rep.check(not bad, "font", b["path"], f"{i}:{label}→{font}",
-                  f"(BOLD, bright-fg, ITALIC) cases where the text is not written exactly once in {font}: "
-                  f"{ {k: v for k, v in list(bad.items())[:2]} }", loc(b))
+        bad = [(str(fg)[:50], eff, font_of(log)) for fg, bright, bg, eff, log in runs if pred("BOLD" in eff, bright, "ITALIC" in eff) and font_of(log) != font]
+        rep.check(not bad, "font", h["path"], f"{i}:{label}→{font}",
+                  f"(foreground, effects) cases where the text is not written exactly once in {font}: {bad[:2]}"[:400], loc(h))
+    rep.count(len(runs))
 
 
 def rule_colours(facts, rep):
@@ -289,43 +332,19 @@ def rule_colours(facts, rep):
     loops = [l for l in (hir.for_loop(n) for n in hir.walk(t["hir"]) if n.get("k") == "match" and n.get("src") == "ForLoopDesugar") if l]
     ok = len(loops) == 1 and hir.is_call(hir.simp(loops[0][1]), R + "styled_str::styled_stream") and hir.is_local(hir.simp(loops[0][1])["args"][0], "styled_text")
     rep.check(ok, "colours", t["path"], "segments-from-styled_stream(text)", "", loc(t))
-    # per segment, in order: colour request for the foreground (gcolor), for the background (fcolor), then the text — through the
-    # helper set_color(( &fg, &bg ), doc) or with its two calls written out in the loop
-    seq = []
+    # per segment, in order: colour request for the foreground (gcolor), for the background (fcolor), then the text — by evaluation
+    # of the loop body on segment values (segment_runs): the helper set_color, its two calls written out, a destructured segment
+    # are all the same
+    bad = []
     if ok:
-        Rl = hir.Resolver(t["hir"])
-        try:
-            helper = facts.body("anstyle_roff", R + "set_color")
-            rep.fn(helper["path"])
-        except AnchorMissing:
-            helper = None
-
-        def colour_src(e):
-            e = hir.peel(Rl.res(hir.peel(e)))
-            if e.get("k") == "call" and e.get("args"):
-                return (hir.callee(e).split("::")[-1], hir.place_str(e["args"][0]))
-            return ("?", hirpp.expr(e)[:30])
-        for n in hir.walk(loops[0][2]):
-            if n.get("k") != "call":
-                continue
-            if helper is not None and hir.is_call(n, R + "set_color"):
-                tup = hir.simp(n["args"][0])
-                els = tup.get("es", []) if tup.get("k") == "tuple" else []
-                pname = helper["params"][0].get("name")
-                for c in hir.walk(helper["hir"]):
-                    if hir.is_call(c, R + "add_color_to_roff"):
-                        fld = hir.peel(c["args"][2])
-                        idx = int(fld["name"]) if fld.get("k") == "field" and fld["name"].isdigit() and hir.is_local(fld["e"], pname) else None
-                        src = colour_src(els[idx]) if idx is not None and idx < len(els) else ("?", "?")
-                        seq.append((hir.last_seg(hir.def_path(c["args"][1])),) + src)
-            elif hir.is_call(n, R + "add_color_to_roff"):
-                seq.append((hir.last_seg(hir.def_path(n["args"][1])),) + colour_src(n["args"][2]))
-            elif hir.is_call(n, R + "set_effects_and_text"):
-                seq.append(("text", hir.local_name(n["args"][0])))
-        branches = [x for x in hir.walk(loops[0][2]) if x.get("k") in ("if", "match", "ret", "break", "continue")]
-        ok = seq == [("FOREGROUND", "get_fg_color", "styled.style"), ("BACKGROUND", "get_bg_color", "styled.style"), ("text", "styled")] and not branches
-    rep.check(ok, "colours", t["path"], "per-segment:colours(fg,bg)-then-text", f"{seq}", loc(t))
-    rep.check(ok, "colours", R + "set_color", "gcolor←fg-then-fcolor←bg", f"{seq[:2]}", loc(t))
+        for fg, bright, bg, eff, log in segment_runs(facts):
+            kinds = [ev_[0] for ev_ in log]
+            cols = [ev_ for ev_ in log if ev_[0] == "colour"]
+            if kinds != ["colour", "colour", "text"] or cols[0][1:] != (("str", "gcolor"), fg) or cols[1][1:] != (("str", "fcolor"), bg):
+                bad.append(f"fg {str(fg)[:40]}, bg {str(bg)[:30]}, effects {eff}: {str(log)[:200]}")
+    ok = ok and not bad
+    rep.check(ok, "colours", t["path"], "per-segment:colours(fg,bg)-then-text", f"{bad[:2]}"[:400], loc(t))
+    rep.check(ok, "colours", R + "set_color", "gcolor←fg-then-fcolor←bg", f"{bad[:2]}"[:400], loc(t))
     a = facts.body("anstyle_roff", R + "add_color_to_roff")
     rep.fn(a["path"])
     # by abstract evaluation on each kind of colour (symbolic payload): the requests made of the document, in order — a match on
@@ -395,23 +414,25 @@ def rule_colours(facts, rep):
 
 
 def rule_taint(facts, rep):
-    # styled.text is only ever an argument of roff::bold / italic / roman
-    uses = []
-    for b in facts.bodies("anstyle_roff"):
-        if "hir" not in b or b.get("expn") or "::tests" in b["path"]:
-            continue
-        for n, frames in hir.visit_with_conds(b["hir"], lambda x: x.get("k") == "field" and x["name"] == "text" and hir.is_local(x["e"], "styled")):
-            uses.append((b, n))
-    sinks = []
-    for b in facts.bodies("anstyle_roff"):
-        if "hir" not in b or b.get("expn"):
-            continue
-        for n in hir.walk(b["hir"]):
-            if n.get("k") == "call" and hir.callee(n) in ("roff::bold", "roff::italic", "roff::roman"):
-                sinks.append(n)
-    in_sinks = sum(1 for (_, u) in uses if any(hir.peel(s["args"][0]) is u for s in sinks))
-    rep.check(len(uses) == 3 and in_sinks == 3, "taint", R + "set_effects_and_text", "text-only-into-bold/italic/roman",
-              f"{len(uses)} uses of the segment text, {in_sinks} of them as the argument of roff's inline constructors", "")
+    # the segment's text is only ever the argument of roff::bold / italic / roman: in the evaluated loop body (segment_runs) the
+    # symbol standing for the text occurs once in the log, as the sole argument of one of the three inline constructors
+    def occurrences(v):
+        if v == ("sym", "TEXT"):
+            return 1
+        if isinstance(v, (tuple, list)):
+            return sum(occurrences(x) for x in v)
+        if isinstance(v, dict):
+            return sum(occurrences(x) for x in v.values())
+        return 0
+    runs = segment_runs(facts)
+    bad = []
+    for fg, bright, bg, eff, log in runs:
+        wrapped = [x for ev_ in log if ev_[0] == "text" and ev_[1] for x in ev_[1]
+                   if x[0] == "app" and x[1] in ("roff::bold", "roff::italic", "roff::roman") and list(x[2:]) == [("sym", "TEXT")]]
+        if occurrences(log) != 1 or len(wrapped) != 1:
+            bad.append(str(log)[:160])
+    rep.check(not bad and len(runs) >= 200, "taint", R + "set_effects_and_text", "text-only-into-bold/italic/roman",
+              f"{len(runs)} segment values; {bad[:1]}"[:400], "")
     # Roff::control never receives data derived from the text: its arguments are literals, consts, hue names and hex strings
     bad = []
     n_ctrl = 0
@@ -424,7 +445,7 @@ def rule_taint(facts, rep):
                 for x in hir.walk(n["args"][2]):
                     if x.get("k") == "field" and x["name"] == "text":
                         bad.append(hirpp.expr(x))
-                    if x.get("k") == "local" and x["name"] in ("styled", "styled_text", "text"):
+                    if x.get("k") == "local" and ("StyledStr" in str(x.get("ty", "")) or x["name"] in ("styled", "styled_text", "text")):
                         bad.append(hirpp.expr(x))
     rep.check(not bad and n_ctrl == 4, "taint", R + "add_color_to_roff", "control-requests-carry-no-text", f"{bad}; {n_ctrl} control sites", "")
     # the only other consumers of the raw input: categorise_text_v3
